@@ -48,6 +48,8 @@ def shortFuncName (full : Str) : Str :=
 structure FnEntry where
   full : Str
   topo : Option Topo
+  /-- `FingerprintResult.Fingerprint` -/
+  fp   : Str := []
   deriving Repr
 
 def FnEntry.short (e : FnEntry) : Str := shortFuncName e.full
@@ -71,6 +73,8 @@ structure Cand where
   i : Nat
   j : Nat
   sim : Rat
+  /-- the two functions have the same fingerprint (an unchanged body) -/
+  same : Bool := false
   deriving Repr
 
 def simOf (a b : Option Topo) : Option Rat :=
@@ -91,10 +95,17 @@ def candidates (uo un : List FnEntry) (thr : Rat) : List Cand :=
         | some nt =>
           if fuzzyHash ot = fuzzyHash nt then
             let s := topoSimilarity ot nt
-            if thr ≤ s then some ⟨i, j, s⟩ else none
+            if thr ≤ s then some ⟨i, j, s, decide (o.fp = n.fp)⟩ else none
           else none))
 
-def candLe (a b : Cand) : Bool := decide (b.sim ≤ a.sim)   -- descending similarity, stable
+/-- the `less` of the candidate sort: higher similarity first; among equally similar candidates an
+    unchanged body first (fix "a renamed function is paired with its own body among equally similar
+    candidates") -/
+def candLt (a b : Cand) : Bool :=
+  decide (b.sim < a.sim) || (decide (a.sim = b.sim) && a.same && !b.same)
+
+/-- `sort.SliceStable(less)` as a merge sort: `a` may stay in front of `b` unless `b` is strictly less -/
+def candLe (a b : Cand) : Bool := !candLt b a
 
 /-- greedy one-to-one selection over the sorted candidates -/
 def greedy : List Cand → List Nat → List Nat → List Cand → List Cand
